@@ -24,6 +24,7 @@ def check(cx):
         'R1.6 no other send site exists in the handler; a user\'s queue is written only by User::send_* and read only by the owner\'s receiver arm, which forwards the received string unchanged',
         'R1.8 the source string is "<nick>!~<user>@<host>" built from the connection\'s current fields, is recomputed by every setter of those fields, and a User\'s copy is only ever taken from its connection\'s string',
         'R1.9 the rank sets the prefixed fan-outs iterate name members only: established empty / {creator} by both channel constructors (C16 R16.1/R16.3) and kept in step with the member map by every mutator (C04 R4.1/R4.4)',
+        'R1.10 (imported) the tokeniser hands the target and the text over unchanged: split at " :", offsets in the right coordinates, only leading blanks trimmed (C13 R13.8/R13.9/R13.13)',
         'R1.7 status prefix characters, target-type bits, rank sets and rank flags agree (get_privmsg_target_type, fan-out guards, ChannelUserModes::to_string)',
     ]
     ck.does_not_decide += ['that Channel.users equals the true membership after an arbitrary history (C04 decides the structural '
@@ -168,6 +169,10 @@ def check(cx):
     depends(cx, r9, 'C04', ('R4.1', 'R4.3', 'R4.4'), 'rank sets kept in step with the member map', only=r'writes-Channel\.users|^Channel|^ChannelModes')
     depends(cx, r9, 'C16', ('R16.1', 'R16.3'), 'rank sets of a new channel name members only',
             only=r'modes-not-cleaned|new_from_modes_and_cleanup\|fields|new_for_channel\|shape|new_on_user_join\|shape')
+
+    # ---- R1.10 the text travels unchanged through the parser
+    r10 = cx.rule('R1.10', 'target and text reach the handler exactly as sent (imported)', floor=1, kind='dependency')
+    depends(cx, r10, 'C13', ('R13.8', 'R13.9', 'R13.13'), 'the tokeniser hands over the trailing parameter unchanged')
 
     # ---- R1.8 the source string
     r8 = cx.rule('R1.8', 'source string integrity', floor=8, kind='provenance')
